@@ -601,6 +601,41 @@ func runAll(c *run.Ctx) {
 			}
 		})
 	}
+	// geometries without any ordinate: typed empties, Multi* of 1..3 empty members, collections of (nested)
+	// empties, alone and as a member next to a non-empty Point - each with every subset of the options
+	eidx := 0
+	for _, ct := range model.CTypes {
+		ct := ct
+		e := func(t geom.GeometryType, kids ...model.Tree) model.Tree { return model.Tree{Type: t, CT: ct, Kids: kids} }
+		var shapes []model.Tree
+		for _, ty := range model.Types {
+			shapes = append(shapes, e(ty))
+		}
+		for n := 1; n <= 3; n++ {
+			var mp, ml, mg, gc []model.Tree
+			for i := 0; i < n; i++ {
+				mp, ml, mg = append(mp, e(geom.TypePoint)), append(ml, e(geom.TypeLineString)), append(mg, e(geom.TypePolygon))
+				gc = append(gc, e(model.Types[(i*3+n)%7]))
+			}
+			shapes = append(shapes, e(geom.TypeMultiPoint, mp...), e(geom.TypeMultiLineString, ml...), e(geom.TypeMultiPolygon, mg...), e(geom.TypeGeometryCollection, gc...),
+				e(geom.TypeGeometryCollection, e(geom.TypeMultiPolygon, mg...), e(geom.TypeGeometryCollection, gc...)))
+		}
+		for _, sh := range shapes {
+			withPoint := e(geom.TypeGeometryCollection, sh, model.Tree{Type: geom.TypePoint, CT: ct, Coords: []float64{1, 2, 3, 4}[:ct.Dimension()]}, sh)
+			for _, t := range []model.Tree{sh, withPoint} {
+				t := t
+				eidx++
+				c.Case("no-ordinate", eidx, func(k *run.K) {
+					k.Nontrivial("no-ordinate" + t.String())
+					for v := 0; v < 16; v++ {
+						one(k, t, drawOpts(k.Rng, t, 0, v))
+						k.Count("encodings", 1)
+						k.Count("encodings_without_ordinates", 1)
+					}
+				})
+			}
+		}
+	}
 	// curves of every length 2..140 (and around 256, 512, 1024) followed by further curves
 	sidx := 0
 	sizes := []int{254, 255, 256, 257, 258, 511, 512, 513, 1023, 1024, 1025}
